@@ -23,6 +23,31 @@ CHECKS = {
  "C17": dict(design="4/C17", technique="history invariant (index < running peak; fresh index only when all lower occupied) over generated histories + allocator leak self-check",
    text="Exploration: every creation in every generated history is checked against the running peak of simultaneously not-yet-dead entities; found and led to the repair of finding F1.",
    note="allocator self-check hook (free list completeness) is used as an early warning: a leaked index always has a continuation that takes a fresh index"),
+
+ "C04": dict(design="4/C04", technique="differential property testing: operation sequences on each storage kind vs a BTreeMap reference model (proptest)",
+   text="Exploration: generated operation sequences over the complete Storage API (entry family, drain, slices, joins, entity deletion) on all 12 storage/wrapper configurations and dense / sparse / layer-straddling index pools are compared with a BTreeMap after every step.",
+   note="trusts the BTreeMap model in harness/src/stoseq.rs; a worker crash (SIGSEGV in the unsafe storage code) is confirmed by replay and reported as a violation"),
+ "C06": dict(design="4/C06", technique="model-based property testing: catalogue of 45 join shapes x generated membership vs set-intersection model, four execution modes",
+   text="Exploration: every shape of a fixed catalogue (arity 1-16, every member kind) is run as join / lend_join next / for_each / get over generated membership incl. all hierarchical-bitset layer boundaries; sequence, items, optional members, write-through and drain effects compared with a set model.",
+   note="shape catalogue is fixed (macro-generated), membership / written subset generated; arities 17-18 cannot be instantiated (no BitAnd impl) so 16 is the maximum"),
+ "C07": dict(design="4/C07", technique="differential property testing: par_join vs sequential join on identical worlds, real rayon pools of 1..256 threads plus generated split trees through a hook",
+   text="Exploration: 14 ParJoin shapes x generated membership; the multiset of delivered items must equal the sequential join, and every mutable component of the intersection must be written exactly once. The partition of the index space is a generated input (split-tree hook), rayon's run-time stealing is sampled on pools up to 256 threads.",
+   note="rayon scheduling sampled; split decisions owned via cfg(specs_verif) hook verif_par_join_split_tree"),
+ "C08": dict(design="4/C08", technique="ledger invariant (serial + canary per component value) over generated storage sequences, world histories and change sets",
+   text="Exploration: every component value is instrumented; after each step and after dropping the world no value may be destroyed twice, exposed after destruction or leaked. Three generators: single-storage sequences on all kinds, world histories with builders / lazy updates / all deletion paths, change sets.",
+   note="the ledger sees only values of the harness's component types; zero-sized components are counted, not individually tracked"),
+ "C12": dict(design="4/C12", technique="model-based property testing of the event stream of FlaggedStorage / DerefFlaggedStorage, two feature builds",
+   text="Exploration: after every operation of generated sequences the events read by a pre-registered reader must be exactly the model's insertions/removals, with Modified required exactly where mutable access was handed out (Flagged) or dereferenced (DerefFlagged); run against builds with and without storage-event-control.",
+   note="Modified multiplicity not asserted; replace on a vacant entry may emit an internal Modified"),
+ "C13": dict(design="4/C13", technique="model-based property testing of restricted storages: sequences, histories with get_other probes, sequential / lending / parallel joins",
+   text="Exploration: restricted joins with a generated subset fetched mutably on all storage kinds (events exactly for the fetched set on tracked ones), get_other/get_other_mut probes with live / dead / stale handles inside world histories, and restricted members inside sequential and parallel join shapes.",
+   note="as C04 / C06 / C07"),
+ "C16": dict(design="4/C16", technique="model-based property testing of ChangeSet with a non-commutative instrumented amount type",
+   text="Exploration: generated pair sequences split into collect / extend / add; all join forms compared with a BTreeMap of concatenations, ledger for by-value consumption.",
+   note="amount type is Vec<u32> concatenation so arrival order is observable"),
+ "C19": dict(design="4/C19", technique="fault injection enumerated over every destructor call of one destroying operation after a generated prefix; ledger + differential continuation",
+   text="Fault enumeration inside exploration: for each generated (prefix, destroying op) all destructor calls of that op are made to panic in turn (capped at 24 per op); after catch_unwind no double destruction, no destroyed value readable, and a generated continuation + teardown behaves like the re-synchronised model.",
+   note="one panic per run; which values survive is not asserted; leaks after a panic only counted"),
 }
 
 NOT_YET = {}
